@@ -11,7 +11,7 @@
 (*   use? use! use=   use(): membership test (a = 1 found), evaluation, mark - a file is evaluated *)
 (*            at most once, only by a thread holding the use mutex, and the test tells the truth   *)
 (*   stk      o = a per-thread scope/call stack holder touched by the scope machine: a holder      *)
-(*            belongs to ONE thread - whoever touches it first - for the whole execution           *)
+(*            belongs to ONE thread - whoever touches it first - until that thread ends (tend)     *)
 EXTENDS Integers, Sequences, FiniteSets, TLC, Json, IOUtils
 
 Tr == ndJsonDeserialize(IOEnv.TRACE)
@@ -80,7 +80,12 @@ Stk == /\ K("stk") /\ (own[E.o] = 0 \/ own[E.o] = T)
        /\ own' = [own EXCEPT ![E.o] = T]
        /\ UNCHANGED <<xo, xd, sh, cnt, used, evals>>
 
-Next == AcqX \/ RelX \/ AcqS \/ RelS \/ Acc \/ Reg \/ UseTest \/ UseEval \/ UseMark \/ Stk
+\* a thread that ends gives its holders back (its thread-local storage dies; the address may serve a thread started later)
+TEnd == /\ K("tend")
+        /\ own' = [m \in Mx |-> IF own[m] = T THEN 0 ELSE own[m]]
+        /\ UNCHANGED <<xo, xd, sh, cnt, used, evals>>
+
+Next == AcqX \/ RelX \/ AcqS \/ RelS \/ Acc \/ Reg \/ UseTest \/ UseEval \/ UseMark \/ Stk \/ TEnd
 TraceSpec == Init /\ [][Next]_vars
 
 MutualExclusion == \A m \in Mx : xo[m] # 0 => \A t \in Th : (t + 1000 # xo[m]) => sh[m][t] = 0
